@@ -1,7 +1,7 @@
 /-
 C11 — Genetic maps and map functions obey their defining laws.
 Property theorems only (helper lemmas: Lemmas/MapFn, GMapSort, GMapInterp, GMapDist, GMapQuery,
-GMapSeq, GMapCongr).
+GMapSeq, GMapCongr, GMapLex, GMapEdit, GMapSpecInterp, GMapSpecDist, GMapPrune).
 
 Model: PybropsModel/Model/GMap.lean
   `MapKind.fn / MapKind.inv`        Haldane/KosambiMapFunction.mapfn / invmapfn (floats with ±∞/NaN: `GDist`)
@@ -15,9 +15,13 @@ sets, both map functions (`k : MapKind`); the two map classes share every functi
 (the extended class only adds columns that ride along: `Row.tag`).
 -/
 import PybropsModel.Lemmas.MapFn
+import PybropsModel.Lemmas.MapFnCond
 import PybropsModel.Lemmas.GMapQuery
 import PybropsModel.Lemmas.GMapSeq
 import PybropsModel.Lemmas.GMapCongr
+import PybropsModel.Lemmas.GMapEdit
+import PybropsModel.Lemmas.GMapSpecDist
+import PybropsModel.Lemmas.GMapPrune
 set_option linter.unusedSectionVars false
 set_option autoImplicit false
 
@@ -80,6 +84,22 @@ theorem mapfn_inverse_right (k : MapKind) (r : ℝ) (h0 : 0 ≤ r) (h1 : r ≤ 1
     exact ⟨GDist.fin d, hd0, hd, by show GDist.fin (k.fn d) = _; rw [hfd]⟩
   · subst h
     exact ⟨GDist.inf, trivial, k.inv_half, rfl⟩
+
+/-- **the round trip under an abstract rounding contract.**  Whatever the float evaluation of `mapfn`
+    does, as long as its result `r'` is within `δ` of the true probability (and `4 δ ≤ e^{-κ d}`, κ = 2
+    for Haldane, 4 for Kosambi), the inverse — with its float semantics for 0 and negative arguments —
+    returns a finite distance within `2 δ e^{κ d}` of `d`.  This is the statement behind the tolerance
+    of the check (`Spec.invTol`): no fixed window of distances, the demanded accuracy degrades with
+    the proven conditioning factor and is dropped only where binary64 cannot resolve `1 − 2r`. -/
+theorem mapfn_roundtrip_conditioning (k : MapKind) (d r' δ : ℝ) (hd : 0 ≤ d) (h1 : |r' - k.fn d| ≤ δ)
+    (h2 : 4 * δ ≤ Real.exp (-((k.kappa : ℝ) * d))) :
+    ∃ d' : ℝ, (k.inv : ℝ → GDist ℝ) r' = GDist.fin d' ∧ |d' - d| ≤ 2 * δ * Real.exp ((k.kappa : ℝ) * d) :=
+  k.roundtrip_perturbed d r' δ hd h1 h2
+
+/-- the rational factor `3^⌈κ d⌉` the oracle uses dominates the conditioning factor `e^{κ d}` -/
+theorem oracle_conditioning_factor_dominates (kappa : ℕ) (a : ℚ) (ha : 0 ≤ a) :
+    Real.exp ((kappa : ℝ) * (a : ℝ)) ≤ ((GMap.Spec.condBound kappa a : ℚ) : ℝ) :=
+  exp_le_condBound kappa a ha
 
 /-- further defining law (not demanded by the property text): distances add along a chromosome
     (`gdist2_additive` below), and the recombination probabilities of the parts then compose by
@@ -302,6 +322,29 @@ theorem construct_order_independent_std (rows rows' : List (Row α Unit)) (hp : 
     construct rows = construct rows' :=
   construct_eq_of_perm hp (fun _ _ _ _ _ _ _ => rfl)
 
+/-- `numpy.lexsort((vrnt_genpos, vrnt_phypos, vrnt_chrgrp))` as numpy performs it — three successive
+    stable sorts — is the single stable sort by (chromosome, physical, genetic position) that the
+    theorems use; on every input: duplicated keys and arbitrary riding columns included -/
+theorem lexsort_three_pass_eq_construct (rows : List (Row α β)) : lexsort3 rows = construct rows :=
+  lexsort3_eq_construct rows
+
+/-- the constructor sort is stable: rows that agree in all three keys keep the order in which they
+    were supplied -/
+theorem construct_stable (rows : List (Row α β)) (x : Row α β) :
+    (construct rows).filter (fun r => rowLe x r && rowLe r x) = rows.filter (fun r => rowLe x r && rowLe r x) :=
+  filter_stableSort rowLe rowLe_total rowLe_trans _
+    (fun a b ha hb => by
+      simp only [Bool.and_eq_true] at ha hb
+      exact rowLe_trans _ _ _ ha.2 hb.1) rows
+
+/-- under the property's quantifier (no duplicated physical position) the stored arrays — riding
+    columns of the extended class included — do not depend on the supplied row order; no hypothesis on
+    the riding columns is needed -/
+theorem construct_order_independent_valid (rows rows' : List (Row α β)) (hp : rows.Perm rows')
+    (hv : ValidMap rows) : construct rows = construct rows' ∧ lexsort3 rows = lexsort3 rows' := by
+  have h := construct_eq_of_perm_of_noDupPhys hp hv.1
+  exact ⟨h, by rw [lexsort3_eq_construct, lexsort3_eq_construct, h]⟩
+
 /-- the stored (sorted, grouped) map is a sorted rearrangement of the supplied rows and answers
     every query like the rows as supplied -/
 theorem construct_sorted_perm_and_same_answers (rows : List (Row α β)) (hv : ValidMap rows)
@@ -334,6 +377,134 @@ example : construct ([⟨2, 10, 0, ()⟩, ⟨1, 30, 1/2, ()⟩, ⟨1, 10, 1/8, (
 example : interpGenpos ([⟨2, 10, 0, ()⟩, ⟨1, 30, 1/2, ()⟩, ⟨1, 10, 1/8, ()⟩, ⟨2, 40, 7/8, ()⟩, ⟨1, 20, 1/4, ()⟩,
     ⟨2, 20, 3/8, ()⟩] : List (Row ℚ Unit)) [1, 1, 1, 2, 3] [20, 15, 40, 5, 7] =
     [some (1/4), some (3/16), some (3/4), some (-3/16), none] := by
+  decide +kernel
+
+/- FULL STATEMENT (false of the as-is model, see counterexample):
+     ∀ rows rows', rows.Perm rows' → construct rows = construct rows'
+   With a duplicated key (excluded by the property) the stable sort keeps the supplied order of the tied
+   rows, so their riding columns come out in the supplied order. -/
+theorem construct_order_dependent_on_duplicate_keys_counterexample :
+    construct ([⟨1, 10, 1/2, 7⟩, ⟨1, 10, 1/2, 8⟩] : List (Row ℚ Nat)) ≠
+      construct ([⟨1, 10, 1/2, 8⟩, ⟨1, 10, 1/2, 7⟩] : List (Row ℚ Nat)) := by
+  decide +kernel
+
+/-! ## 3b. Editing a map: `remove`, `select`, `remove_discrepancies`, `build_spline` -/
+section editing
+variable {α β : Type} [Field α] [LinearOrder α] [IsStrictOrderedRing α]
+
+/-- `remove_discrepancies()` on a freshly constructed map is the one-pass step `rdStep` on its arrays,
+    and `n` calls are `n` steps -/
+theorem remove_discrepancies_eq_rdStep (rows : List (Row α β)) (n : Nat) :
+    (MapObj.removeDiscrepancies^[n] (MapObj.new rows)).rows = rdStep^[n] (construct rows) :=
+  (removeDiscrepancies_iterate rows n).2
+
+/-- a congruent map is left alone; a map that is not congruent loses at least one marker -/
+theorem remove_discrepancies_fixed_or_shrinks (rows : List (Row α β)) :
+    (Congruent rows → rdStep rows = construct rows) ∧
+    (¬ Congruent rows → (rdStep rows).length < rows.length) :=
+  ⟨rdStep_of_congruent, rdStep_length_lt⟩
+
+/-- nothing is invented and no chromosome is lost: the result consists of rows of the map, and every
+    chromosome keeps at least its first marker -/
+theorem remove_discrepancies_keeps_chromosomes (rows : List (Row α β)) :
+    (∀ r ∈ rdStep rows, r ∈ rows) ∧
+    ∀ c : Int, (∃ r ∈ rdStep rows, r.chr = c) ↔ ∃ r ∈ rows, r.chr = c :=
+  ⟨rdStep_subset rows, rdStep_chromosomes rows⟩
+
+/- FULL STATEMENT (false of the as-is model, see counterexample):
+     ∀ rows, Congruent (rdStep rows)          -- "remove_discrepancies yields a congruent map"
+   One pass compares every marker with its predecessor in the array *as it stands before anything is
+   removed*; after the removal new neighbours can be discordant. -/
+
+/-- genetic positions 0, 5, 1, 2, 6: the pass drops the 1 (< 5) but keeps the 2 (≥ 1); the result
+    0, 5, 2, 6 is not congruent (`is_congruent()` false) -/
+theorem remove_discrepancies_one_pass_counterexample :
+    rdStep ([⟨1, 10, 0, ()⟩, ⟨1, 20, 5, ()⟩, ⟨1, 30, 1, ()⟩, ⟨1, 40, 2, ()⟩, ⟨1, 50, 6, ()⟩] : List (Row ℚ Unit)) =
+      [⟨1, 10, 0, ()⟩, ⟨1, 20, 5, ()⟩, ⟨1, 40, 2, ()⟩, ⟨1, 50, 6, ()⟩] ∧
+    (congruence (rdStep ([⟨1, 10, 0, ()⟩, ⟨1, 20, 5, ()⟩, ⟨1, 30, 1, ()⟩, ⟨1, 40, 2, ()⟩, ⟨1, 50, 6, ()⟩] :
+      List (Row ℚ Unit)))).all id = false := by
+  decide +kernel
+
+/-- calling `remove_discrepancies()` repeatedly does reach a congruent map: after at most as many
+    calls as there are markers, whatever the map (no hypothesis) -/
+theorem remove_discrepancies_iterated_congruent_partial (rows : List (Row α β)) (n : Nat)
+    (hn : rows.length ≤ n) :
+    Congruent (MapObj.removeDiscrepancies^[n] (MapObj.new rows)).rows := by
+  rw [remove_discrepancies_eq_rdStep]
+  exact rdIter_congruent _ n (by rw [(construct_perm rows).length_eq]; exact hn)
+
+/-- after `build_spline()` the object answers from its stored arrays, so every interpolation theorem
+    above applies to the edited map (whenever it is still a `ValidMap`) -/
+theorem interp_after_edit_and_build_spline (m : MapObj α β) (qchr : List Int) (qphy : List α) :
+    (m.buildSpline.interpGenpos qchr qphy).1 = some (interpGenpos m.rows qchr qphy) := rfl
+
+end editing
+
+section pruning
+variable {α γ : Type} [Add α] [Sub α] [Div α] [LT α] [DecidableLT α] [LE α] [DecidableLE α] [HasCeil α]
+
+/-- `ExtendedGeneticMap.prune(nt, M)` in all three modes, for ANY scalar and therefore any outcome of its
+    accumulated float comparisons: the index array handed to `select` is strictly increasing, inside the
+    map, and contains the first and the last marker of every chromosome run; the selected rows are a
+    sublist of the stored rows.  (`runs` = the (stix, spix) table of a grouped map of `n` markers.) -/
+theorem prune_keeps_chromosome_ends (chr : Nat → Int) (phy gen : Nat → α) (runs : List (Nat × Nat)) (n : Nat)
+    (hc : RunsChain runs 0 n) (nt M : Option α) (idx : List Nat)
+    (h : pruneIndices chr phy gen runs nt M = some idx) :
+    idx.Pairwise (· < ·) ∧ (∀ x ∈ idx, x < n) ∧ (∀ r ∈ runs, r.1 ∈ idx ∧ r.2 - 1 ∈ idx) ∧
+      ∀ rows : List γ, rows.length = n → (Np.take idx rows).Sublist rows := by
+  have key : idx.Pairwise (· < ·) ∧ (∀ x ∈ idx, x < n) ∧ (∀ r ∈ runs, r.1 ∈ idx ∧ r.2 - 1 ∈ idx) := by
+    unfold pruneIndices at h
+    cases nt with
+    | none =>
+      cases M with
+      | none => simp at h
+      | some m =>
+        simp only [Option.some.injEq] at h; subst h
+        exact prunePass1_spec gen m runs n hc
+    | some t =>
+      cases M with
+      | none =>
+        simp only [Option.some.injEq] at h; subst h
+        exact prunePass1_spec phy t runs n hc
+      | some m =>
+        simp only [Option.some.injEq] at h; subst h
+        obtain ⟨a1, a2, a3⟩ := prunePass1_spec gen m runs n hc
+        obtain ⟨b1, b2, b3⟩ := prunePass2_spec chr phy t _ n a1 a2
+        exact ⟨b1, b2, fun r hr => ⟨b3 _ (a3 r hr).1, b3 _ (a3 r hr).2⟩⟩
+  refine ⟨key.1, key.2.1, key.2.2, ?_⟩
+  intro rows hn
+  exact take_sublist_of_increasing idx rows key.1 (fun i hi => hn ▸ key.2.1 i hi)
+
+/-- the same for the run table `group()` actually computes, on any stored arrays: no hypothesis left -/
+theorem prune_on_grouped_map {β : Type} (rows : List (Row α β)) (chr : Nat → Int) (phy gen : Nat → α)
+    (nt M : Option α) (idx : List Nat)
+    (h : pruneIndices chr phy gen ((groupMeta rows).map fun r => (r.2.1, r.2.2.1)) nt M = some idx) :
+    idx.Pairwise (· < ·) ∧ (∀ x ∈ idx, x < rows.length) ∧
+      (∀ r ∈ groupMeta rows, r.2.1 ∈ idx ∧ r.2.2.1 - 1 ∈ idx) ∧ (Np.take idx rows).Sublist rows := by
+  obtain ⟨a, b, c, d⟩ := prune_keeps_chromosome_ends (γ := Row α β) chr phy gen _ rows.length
+    (groupMeta_runsChain rows) nt M idx h
+  refine ⟨a, b, ?_, d rows rfl⟩
+  intro r hr
+  exact c (r.2.1, r.2.2.1) (List.mem_map.mpr ⟨r, hr, rfl⟩)
+
+end pruning
+
+-- non-vacuity: one chromosome run [0, 6) at ℚ, target spacing 20 → first, two interior, last marker
+example : pruneIndices (α := ℚ) (fun _ => 1) (fun i => [10, 12, 19, 31, 40, 60].getD i 0) (fun _ => 0) [(0, 6)]
+    (some 20) none = some [0, 3, 4, 5] ∧ RunsChain [(0, 6)] 0 6 := by
+  constructor
+  · decide +kernel
+  · exact ⟨rfl, by norm_num, rfl⟩
+
+/-- … but `remove` / `select` / `remove_discrepancies` do not rebuild the spline: until `build_spline()`
+    is called the object keeps interpolating through the removed marker (design of the library: the
+    spline is an attribute of its own, cf. `interp_gmap`).  Here marker (20, 5) is removed; position 20
+    still maps to 5, while the stored arrays (10 ↦ 0, 30 ↦ 1) would give ½. -/
+theorem interp_after_remove_uses_old_spline_counterexample :
+    (((MapObj.new ([⟨1, 10, 0, ()⟩, ⟨1, 20, 5, ()⟩, ⟨1, 30, 1, ()⟩] : List (Row ℚ Unit))).remove [1]).interpGenpos
+        [1] [20]).1 = some [some 5] ∧
+    (((MapObj.new ([⟨1, 10, 0, ()⟩, ⟨1, 20, 5, ()⟩, ⟨1, 30, 1, ()⟩] : List (Row ℚ Unit))).remove [1]).buildSpline.interpGenpos
+        [1] [20]).1 = some [some (1/2)] := by
   decide +kernel
 
 /-! ## 4. Crossover probabilities of a genotype matrix -/
@@ -426,5 +597,70 @@ example : ValidMap ([⟨1, 0, 0, ()⟩, ⟨1, 1, 1, ()⟩] : List (Row ℝ Unit)
   · intro a ha b hb _ hlt
     simp only [List.mem_cons, List.not_mem_nil, or_false] at ha hb
     rcases ha with rfl | rfl <;> rcases hb with rfl | rfl <;> first | (show (_ : ℝ) ≤ _; norm_num; done) | (exfalso; norm_num at hlt)
+
+/-! ## 5. The Spec oracles of the check (Model/GMapSpec.lean) versus the theorems
+
+The driver evaluates `Spec.specInterp` / `Spec.specGdist` on the IMPLEMENTATION's outputs.  The theorems
+below tie these Bool functions to the property theorems in both directions: they never reject what the
+proved model computes (no false alarm from the oracle itself), and whatever they accept at zero tolerance
+satisfies the conclusions of the theorems.  (`specXoprob` and `specMapfn` involve `Float.exp/log/tanh`,
+opaque to proof; they are tied to the model by the per-run `self` verdict only.) -/
+section oracles
+open GMap.Spec
+
+/-- the interpolation oracle accepts the model's answers for every valid map, every other supplied row
+    order, every query array — at the float tolerance and at zero tolerance alike -/
+theorem spec_interp_accepts_model (t : Tol) (ht : 0 ≤ t.abs_) (rows rows' : List (Row ℚ Int))
+    (hp : rows.Perm rows') (hv : ValidMap rows) (qchr : List Int) (qphy : List ℚ)
+    (hl : qphy.length = qchr.length) :
+    (specInterp rows qchr qphy (interpGenpos rows qchr qphy) (interpGenpos rows' qchr qphy) t).1 = true :=
+  specInterp_accepts_model t ht rows rows' hp hv qchr qphy hl
+
+/-- an output accepted at zero tolerance: same for both row orders; own markers return the stored
+    position; strictly between flanking markers the chord; missing exactly on absent chromosomes -/
+theorem spec_interp_exact_sound (rows : List (Row ℚ Int)) (qchr : List Int) (qphy : List ℚ)
+    (out out2 : List (Option ℚ)) (h : (specInterp rows qchr qphy out out2 Tol.zero).1 = true) :
+    out.length = qchr.length ∧ out = out2 ∧ ∀ p ∈ queries qchr qphy out, QueryLaw rows p :=
+  specInterp_exact_sound rows qchr qphy out out2 h
+
+/-- hence it coincides with the model wherever the property determines the answer -/
+theorem spec_interp_exact_agrees_with_model (rows : List (Row ℚ Int)) (hv : ValidMap rows) (p : Query)
+    (hlaw : QueryLaw rows p) :
+    ((∃ r ∈ rows, r.chr = p.1 ∧ r.phy = p.2.1) → p.2.2 = interpOne rows p.1 p.2.1) ∧
+    ((∃ a ∈ rows, ∃ b ∈ rows, a.chr = p.1 ∧ b.chr = p.1 ∧ a.phy < p.2.1 ∧ p.2.1 < b.phy ∧
+        ∀ m ∈ rows, m.chr = p.1 → ¬ (a.phy < m.phy ∧ m.phy < b.phy)) → p.2.2 = interpOne rows p.1 p.2.1) ∧
+    ((∀ r ∈ rows, r.chr ≠ p.1) → p.2.2 = interpOne rows p.1 p.2.1) :=
+  specInterp_exact_agrees_with_model rows hv p hlaw
+
+/-- the distance oracle accepts the model's `gdist1g` / `gdist2g` on every input -/
+theorem spec_gdist_accepts_model (t : Tol) (ht : 0 ≤ t.abs_) (chr : List Int) (gen : List (Option ℚ))
+    (hl : gen.length = chr.length) :
+    (specGdist chr gen (some (gdist1g chr gen)) (gdist2g chr gen) t).1 = true :=
+  specGdist_accepts_model t ht chr gen hl
+
+/-- arrays accepted at zero tolerance carry the model's pairwise entry wherever chromosomes differ or both
+    positions are known, +∞ at every chromosome start, and the model's sequential entry for ordered
+    adjacent markers -/
+theorem spec_gdist_exact_sound (chr : List Int) (gen : List (Option ℚ)) (d1 : List (GDist ℚ))
+    (d2 : List (List (GDist ℚ))) (hl : gen.length = chr.length)
+    (h : (specGdist chr gen (some d1) d2 Tol.zero).1 = true) :
+    (∀ i < chr.length, ∀ j < chr.length,
+        (lab chr i ≠ lab chr j ∨ (known gen i = true ∧ known gen j = true)) →
+        ent d2 i j = ent (gdist2g chr gen) i j) ∧
+    (∀ i < chr.length, isStart chr i = true → seqAt d1 i = seqAt (gdist1g chr gen) i) ∧
+    (∀ k, k + 1 < chr.length → isStart chr (k + 1) = false → known gen k = true → known gen (k + 1) = true →
+        valAt gen k ≤ valAt gen (k + 1) → seqAt d1 (k + 1) = seqAt (gdist1g chr gen) (k + 1)) :=
+  specGdist_exact_sound chr gen d1 d2 hl h
+
+end oracles
+
+-- non-vacuity: the oracle really evaluates (kernel) on the shuffled two-chromosome map used above, and it
+-- rejects an answer that is off by 1/8 at one query
+example : (GMap.Spec.specInterp [⟨2, 10, 0, 0⟩, ⟨1, 30, 1/2, 1⟩, ⟨1, 10, 1/8, 2⟩, ⟨2, 40, 7/8, 3⟩, ⟨1, 20, 1/4, 4⟩,
+    ⟨2, 20, 3/8, 5⟩] [1, 1, 2, 3] [20, 15, 5, 7] [some (1/4), some (3/16), some (-3/16), none]
+    [some (1/4), some (3/16), some (-3/16), none] GMap.Spec.Tol.zero).1 = true := by decide +kernel
+example : (GMap.Spec.specInterp [⟨2, 10, 0, 0⟩, ⟨1, 30, 1/2, 1⟩, ⟨1, 10, 1/8, 2⟩, ⟨2, 40, 7/8, 3⟩, ⟨1, 20, 1/4, 4⟩,
+    ⟨2, 20, 3/8, 5⟩] [1, 1, 2, 3] [20, 15, 5, 7] [some (1/4), some (5/16), some (-3/16), none]
+    [some (1/4), some (5/16), some (-3/16), none]).1 = false := by decide +kernel
 
 end C11
